@@ -99,6 +99,9 @@ CUSTOM_AT = [("Excl", r"^\s*go(\s|$)", "enable_exclusion"),
              ("Object", "start", "enable_exclusion"),
              ("Object", "stop", "disable_exclusion")]
 
+HANDLED = {"G0", "G1", "G2", "G3", "G10", "G11", "G20", "G21", "G28", "G90", "G91", "G92", "M82",
+           "M83", "M206"}
+
 _WORD = re.compile(r"([A-Za-z])([-+]?[0-9]*\.?[0-9]+)")
 
 
@@ -209,6 +212,11 @@ class MotionGen(object):
             for code in ["G4", "M204", "M205", "M73", "M900"]:
                 if rng.random() < 0.7:
                     cfg["xg"][code] = rng.choice(modes)
+        if rng.random() < (0.4 if self.useDeferred else 0.15):
+            # entries for codes the filter handles itself: they must stay inert
+            for code in rng.sample(["G90", "G91", "G20", "G21", "G92", "M83", "G28", "G1", "G10"],
+                                   4):
+                cfg["xg"][code] = rng.choice(["exclude", "exclude", "first", "last", "merge"])
             if not cfg["xg"]:
                 cfg["xg"]["M204"] = "merge"
         if self.useAt and rng.random() < 0.3:
@@ -675,6 +683,11 @@ class MotionGen(object):
                 gh.off[axis] = gh.p[axis] - val
                 words.append(axis + fmt_mm(val))
         self.emit("G92 " + " ".join(words))
+        if rng.random() < 0.3:
+            # a sub-coded G92 later on (for the filter and the reference printer a G92 without
+            # words, i.e. nothing: both entry points must agree on that)
+            self.act_move()
+            self.emit("G92.1")
 
     def act_mode(self):
         gh = self.ghost
@@ -914,7 +927,7 @@ class MotionGen(object):
 
     def act_deferred(self):
         rng = self.rng
-        codes = list(self.cfg["xg"].keys()) or ["M204"]
+        codes = [c for c in self.cfg["xg"].keys() if c not in HANDLED] or ["M204"]
         code = rng.choice(codes)
         letters = rng.sample(["P", "S", "T", "R", "K"], rng.randint(1, 3))
         words = [l + str(rng.choice([0, 0, 1, 5, 50, 500, 1000, 1250, "0.5", "0.00005", "0.0002",
@@ -928,7 +941,7 @@ class MotionGen(object):
 
     def act_other(self):
         rng = self.rng
-        self.emit(rng.choice(["M105", "M106 S255", "M107", "G4 P10", "T0", "M117 Layer 3",
+        self.emit(rng.choice(["M105", "M106 S255", "M107", "G4 P10", "T0", "M117 Layer 3", "G92.1",
                               "M400", "M220 S100", "G29", "M114", "M84 S600",
                               "M73 P10 R20", "M204 S800", "M900 K0.2"]))
 
